@@ -57,6 +57,9 @@ T = {
     "C16": ("file-boundary round-trip monitor: save()/load() and every file_IO writer/parser pair, oracle = the in-memory object that was written, tolerance = printed precision measured from the written text; repeated in a working directory seeded with decoy files; documented priority list of load() checked pairwise with distinguishable sources",
             "Held on the executions produced: 12 crystals (extended symbols, collinear/non-collinear moments, custom masses) x 17 calculator settings x dataset type 1/2/none x FC full/compact/none x NAC x xz x all 2^5 settings dictionaries; FORCE_SETS/FORCE_CONSTANTS/hdf5/BORN with values from 1e-8 to 1e8; 21 source pairs of the load() priority list.",
             "type-2 datasets are round-tripped but not turned into force constants (symfc/ALM absent)", "3/C16"),
+    "C17": ("file-boundary round-trip monitor per interface (adapters add only format-prescribed headers/comments, never touch numeric or species fields) + exhaustive SI re-derivation of the 17 unit sets + end-to-end 'same physical crystal in every unit system' + fault injection into calculator outputs for create_FORCE_SETS",
+            "Held on the executions produced: 15 interfaces x 11 cells (interleaved/grouped/random order, positions outside [0,1), rotated lattices) incl. displaced supercells; all 17 unit entries (exhaustive); 4-8 crystals re-expressed in every unit system with and without NAC; swapped / atom-permuted vasprun.xml refused.",
+            "cp2k structure I/O not decidable (cp2k-input-tools absent); CRYSTAL has no same-interface reader for its inputs (harness parser of the .ext block); tolerance from measured printed precision", "3/C17"),
 }
 
 NA_REASON = "check not built yet in this round (runtime-monitoring driver pending); no claim is made"
